@@ -207,7 +207,10 @@ class Linear(keras.layers.Layer):
     linear_lib.verify_hyperparameters(
         num_input_dims=self.num_input_dims,
         units=self.units,
-        input_shape=input_shape)
+        input_shape=input_shape,
+        monotonicities=self.monotonicities,
+        input_min=self.input_min,
+        input_max=self.input_max)
 
     if (any(self.monotonicities) or self.monotonic_dominances or
         self.range_dominances or self.normalization_order):
